@@ -52,6 +52,10 @@ pub trait Cat {
     fn payload(v: &Self::V) -> usize;
     /// Index equality.
     fn idx_eq(a: Idx<Self>, b: Idx<Self>) -> bool;
+    /// The empty item of this type (zero elements / zero bytes), where there is one.
+    fn empty() -> Option<Self::V> {
+        None
+    }
 }
 
 // ---------------------------------------------------------------------------------------------------------------
@@ -130,6 +134,9 @@ pub struct OwnU8;
 impl Cat for OwnU8 {
     type R = OwnedRegion<u8>;
     type V = Bytes<N>;
+    fn empty() -> Option<Bytes<N>> {
+        Some(Bytes::any_len(0))
+    }
     fn any() -> Bytes<N> {
         Bytes::any()
     }
@@ -203,6 +210,9 @@ pub struct Str;
 impl Cat for Str {
     type R = StringRegion;
     type V = String;
+    fn empty() -> Option<String> {
+        Some(String::new())
+    }
     fn any() -> String {
         any_string()
     }
@@ -389,6 +399,9 @@ pub struct SliceU8;
 impl Cat for SliceU8 {
     type R = SliceRegion<MirrorRegion<u8>>;
     type V = Bytes<N>;
+    fn empty() -> Option<Bytes<N>> {
+        Some(Bytes::any_len(0))
+    }
     fn any() -> Bytes<N> {
         Bytes::any()
     }
@@ -482,6 +495,9 @@ pub struct SliceStr;
 impl Cat for SliceStr {
     type R = SliceRegion<StringRegion>;
     type V = StrRow;
+    fn empty() -> Option<StrRow> {
+        Some(StrRow { s: [String::new(), String::new()], len: 0 })
+    }
     fn any() -> StrRow {
         StrRow::any()
     }
@@ -507,6 +523,9 @@ pub struct SliceCipStr;
 impl Cat for SliceCipStr {
     type R = SliceRegion<ConsecutiveIndexPairs<StringRegion, IndexOptimized>, IndexOptimized>;
     type V = StrRow;
+    fn empty() -> Option<StrRow> {
+        Some(StrRow { s: [String::new(), String::new()], len: 0 })
+    }
     fn any() -> StrRow {
         StrRow::any()
     }
@@ -552,6 +571,9 @@ pub struct SliceSliceU8;
 impl Cat for SliceSliceU8 {
     type R = SliceRegion<SliceRegion<MirrorRegion<u8>>>;
     type V = Rows;
+    fn empty() -> Option<Rows> {
+        Some(Rows { rows: [Bytes::any_len(0), Bytes::any_len(0)], len: 0 })
+    }
     fn any() -> Rows {
         Rows::any()
     }
@@ -653,6 +675,9 @@ pub struct ColU8;
 impl Cat for ColU8 {
     type R = ColumnsRegion<MirrorRegion<u8>>;
     type V = Bytes<N>;
+    fn empty() -> Option<Bytes<N>> {
+        Some(Bytes::any_len(0))
+    }
     fn any() -> Bytes<N> {
         Bytes::any_len(crate::gen::len3_next())
     }
@@ -678,6 +703,9 @@ pub struct ColU8Vec;
 impl Cat for ColU8Vec {
     type R = ColumnsRegion<MirrorRegion<u8>, Vec<usize>>;
     type V = Bytes<N>;
+    fn empty() -> Option<Bytes<N>> {
+        Some(Bytes::any_len(0))
+    }
     fn any() -> Bytes<N> {
         Bytes::any_len(crate::gen::len3_next())
     }
@@ -704,6 +732,9 @@ macro_rules! columns_str_cat {
         impl Cat for $name {
             type R = $r;
             type V = StrRow;
+            fn empty() -> Option<StrRow> {
+                Some(StrRow { s: [String::new(), String::new()], len: 0 })
+            }
             fn any() -> StrRow {
                 StrRow::any()
             }
@@ -752,6 +783,9 @@ macro_rules! bytes_wrapper_cat {
         impl Cat for $name {
             type R = $r;
             type V = Bytes<N>;
+            fn empty() -> Option<Bytes<N>> {
+                Some(Bytes::any_len(0))
+            }
             fn any() -> Bytes<N> {
                 Bytes::any()
             }
@@ -784,6 +818,9 @@ macro_rules! str_wrapper_cat {
         impl Cat for $name {
             type R = $r;
             type V = String;
+            fn empty() -> Option<String> {
+                Some(String::new())
+            }
             fn any() -> String {
                 any_string()
             }
@@ -839,6 +876,9 @@ pub struct CipSliceU8;
 impl Cat for CipSliceU8 {
     type R = ConsecutiveIndexPairs<SliceRegion<MirrorRegion<u8>>>;
     type V = Bytes<N>;
+    fn empty() -> Option<Bytes<N>> {
+        Some(Bytes::any_len(0))
+    }
     fn any() -> Bytes<N> {
         Bytes::any()
     }
